@@ -140,6 +140,9 @@ func (x *Exec) addPC(c *Term) {
 	if v, ok := x.lit[c]; ok && v {
 		return
 	}
+	if c.IsFalse() {
+		panic(abortSig{"infeasible", "path condition is false"})
+	}
 	x.pc = append(x.pc, c)
 	x.sol.Assert(x.ts, c)
 	x.learn(c, true)
